@@ -229,6 +229,14 @@ def _setprop(cls, code, v):
 
 
 # ---- int cases -----------------------------------------------------------------------------------
+try:
+    import numpy as _np
+    NUMPY_INTS = [('uint8', 0, 255), ('int8', -128, 127), ('int16', -2 ** 15, 2 ** 15 - 1), ('uint32', 0, 2 ** 32 - 1), ('int64', -2 ** 63, 2 ** 63 - 1),
+                  ('uint64', 0, 2 ** 64 - 1)]
+except Exception:  # noqa: BLE001 - numpy is optional
+    _np, NUMPY_INTS = None, []
+
+
 def creation_routes(code: str, v: int, classes):
     """(op, route label, thunk returning the created bits as a str)"""
     r = [('create-keyword', 'kw-' + c, (lambda c=c: B(CLASSES[c](**{code: v})))) for c in classes]
@@ -238,6 +246,14 @@ def creation_routes(code: str, v: int, classes):
           ('create-pack-positional', 'pack-pos', lambda: B(pack(code, v))),
           ('create-pack-eqvalue', 'pack-eq', lambda: B(pack(f'{code}={v}'))),
           ('create-pack-keyword', 'pack-kw', lambda: B(pack(f'{code}=val', val=v)))]
+    # the same integer as a fixed-width numpy scalar (an integer whatever its class; arithmetic on it must not wrap at its own width)
+    for nm, lo, hi in NUMPY_INTS:
+        if lo <= v <= hi:
+            nv = getattr(_np, nm)(v)
+            r += [('create-keyword', f'kw-{nm}', lambda nv=nv: B(Bits(**{code: nv}))),
+                  ('create-build', f'build-{nm}', lambda nv=nv: B(Dtype(code).build(nv))),
+                  ('create-property', f'prop-{nm}', lambda nv=nv: _setprop('BitArray', code, nv))]
+            break
     return r
 
 
